@@ -18,6 +18,8 @@ CLAIMS = {
             'trusted: as C01; wf clause unique_at_line assumed; code-lens / call-hierarchy / CLI counts glue not covered', '§5-C04'),
     'C16': ('proof', 'detect_scope_mismatches_in_file (after fix 898ebb4) is proved sound AND complete against is_mismatch: a pair (F, D) is reported iff F is the file\'s definition of a listed name, D is the definition the proved resolver selects from F\'s file for one of F\'s dependencies (own name -> overridden parent) and rank(F.scope) > rank(D.scope); the derived ordering of FixtureScope is checked exhaustively by Kani. Cycle detection is not under contract (known finding F-16b).',
             'trusted: as C01 (resolver contract proved in unit resolver_core); HashSet/DashMap shims; wf_names assumed', '§5-C16'),
+    'C17': ('proof', 'Precision clause, availability part: is_available_fixture is proved to return true exactly when some registered definition of the name is in the same file, in a conftest.py whose directory is a prefix of the file path, a plugin or third-party definition; lemmas: a name no fixture carries is never available, a name is never available merely because an unrelated module defines it. The expression visitor (which uses are examined) and the quick fix are not covered.',
+            'trusted: as C01 plus Path helper expressions moved into external_body helpers with assumed contracts', '§5-C17'),
     'C18': ('proof', 'The offered-set algebra of completion is proved exactly: filter_and_enrich_fixtures returns available filtered by !excluded in order, is_fixture_excluded/should_exclude_fixture/fixture_sort_priority equal their specs (self/cls, declared params, current fixture, narrower scope; same-file 0 < project 1 < plugin 2 < third-party 3); lemmas: every name once, excluded never offered. Context classification (where completion is offered) is not covered.',
             'trusted: extractor incl. //@item, format! builders uninterpreted, derive(PartialOrd) via Kani', '§5-C18'),
     'C19': ('proof', 'Config::from_raw is proved to keep exactly the valid diagnostic codes and valid glob patterns element-wise (order preserved, other settings passed through) and is_diagnostic_disabled to be membership; lemmas: bad entries are ignored individually, settings are independent. The publish path and TOML parsing are not covered.',
@@ -28,6 +30,8 @@ CLAIMS = {
             'trusted: as C06; compute_* abstract; get_imported_fixtures memo and eviction not under contract', '§5-C07'),
     'C08': ('proof', 'Order independence is a lemma over the proved operational spec of resolution: two registration orders that only interleave files differently (the only effect a scan schedule has on definitions[name]) give the same answer, provided the three first-come-first-served choices agree (import branch, several plugins, several third-party packages defining the name) — these hypotheses name exactly the order-dependent sites; hash-ordered loops under contract are verified for every enumeration order. Known findings: F-01 (import branch), F-16b (cycle graph).',
             'as C01; the model of a schedule (interleaving of per-file sub-sequences) is taken from the property text', '§5-C08'),
+    'C12': ('proof', 'Termination: every loop and recursion of every function under contract (all units) carries a decreases measure that Verus discharges — the conftest walk (path length), all for-loops over vectors / hash enumerations. Lock discipline: the mutators are verified in &mut-receiver form with write operations of the DashMap shim taking &mut self, so Rust\'s borrow checker (run by Verus) rejects a write while a guard of the same map is alive and any self-call while a write guard is alive; a lexical lint covers the remaining pattern (another map touched inside a get_mut guard). Read-under-read nesting is argued in DESIGN, not proved.',
+            'no thread model; compute_fixture_cycles, get_imported_fixtures recursion, providers/ and scanner.rs are not under contract', '§5-C12'),
     'C15': ('proof', 'Line/column arithmetic is proved exactly: build_line_index == the ascending newline positions (+1), get_line_from_offset / get_char_position_from_offset return the unique (line, column) with line_start + column == offset, for every offset (no panic); lemmas: monotone, single-line tokens give start <= end with the token length, round trip; the column is the BYTE count since the line start — equal to the UTF-16 column only for ASCII prefixes: known finding F-15a with a proved counterexample.',
             'trusted: memchr_iter / binary_search assumed specs; handler-built Range literals and visitor span arithmetic not covered', '§5-C15'),
     'C10': ('proof', 'Sequential clauses only: the contract of analyze_file_internal gives, for both orders of {scan analyses F from disk, editor analyses F from the buffer}, the resulting entries of F; lemma restore: one further analyze_file(F, t) makes F\'s entries exactly those of t; lemma fresh-keeps-old: analyze_file_fresh on a non-empty index keeps the old entries — known finding F-10 (open then scan yields both).',
